@@ -417,6 +417,7 @@ Definition update_position_reply (w : world) (input output reply_id : Z) : res (
              do nn <- cadd (p_notional p) (ts_open_notional swap);
              Ok (swap_margin, mtv, spos swap_margin, side_to_direction (ts_side swap), nn)
            else
+             check negb (sgtb (sabs signed_output) (sabs (p_size p))) else EGuard;
              do realized_pnl <- if negb (s_is_zero (p_size p)) then
                                   do m <- schecked_mul (ts_upnl swap) (sabs signed_output);
                                   sdiv m (sabs (p_size p))
@@ -531,6 +532,7 @@ Definition partial_close_position_reply (w : world) (input output : Z) : res (wo
   let p := get_position (w_eng w) (w_env w) vamm trader (ts_side swap) in
   do st1 <- update_open_interest_notional w st vamm (sneg_ input) trader;
   let signed_output := match ts_side swap with Buy => spos output | Sell => sneg_ output end in
+  check negb (sgtb (sabs signed_output) (sabs (p_size p))) else EGuard;
   do realized_pnl <- if negb (s_is_zero (p_size p)) then
                        do m <- schecked_mul (ts_upnl swap) (sabs signed_output);
                        sdiv m (sabs (p_size p))
